@@ -1,7 +1,18 @@
 import BU.Properties.C10
+import BU.Properties.C10_Gen
 #print axioms C10.prefixes
 #print axioms C10.to_string_eq
 #print axioms C10.accept_sound
 #print axioms C10.roundtrip
 #print axioms C10.from_hash160
 #print axioms C10.pubkey_address
+#print axioms C10Gen.any_not_all
+#print axioms C10Gen.slice1
+#print axioms C10Gen.slice4
+#print axioms C10Gen.gen_is_address_valid
+#print axioms C10Gen.sliceL_1_m4
+#print axioms C10Gen.gen_address_to_hash160
+#print axioms C10Gen.gen_address_to_string
+#print axioms C10Gen.genAccept_eq
+#print axioms C10Gen.gen_accept_sound
+#print axioms C10Gen.gen_roundtrip
